@@ -252,7 +252,7 @@ func runC16(p *Prog, r *Report, tier string) {
 			return
 		}
 		if sl, ok := rangeElemIndex(c.Args[0]); ok && sl == ssa.Value(are.Params[1]) {
-			if cc, ok := in.(*ssa.Call); ok && errEdgeReturns(cc) {
+			if cc, ok := in.(*ssa.Call); ok && errEdgeReturns(cc) && everyIteration(in) {
 				okLoop = true
 			}
 		}
